@@ -22,18 +22,14 @@ VARIANTS = [
                 group1.calculate_total_pka()
                 group2.calculate_total_pka()
 """, ""),
-               (CG, """        self.swap_interactions([group1], [group2])
+               (CG, """            determinant_list[:] = original
         group1.calculate_total_pka()
         group2.calculate_total_pka()
-        # check difference in free energy""", """        self.swap_interactions([group1], [group2])
+        # check difference in free energy""", """            determinant_list[:] = original
         # check difference in free energy""")]},
     {'name': 'transfer-asymmetric', 'rule': 'C15.R1',
-     'edits': [(CG, """        for det in from2to1:
-            det.label = label2
-            determinants1.append(det)
-            determinants2.remove(det)""", """        for det in from2to1:
-            det.label = label2
-            determinants1.append(det)""")]},
+     'edits': [(CG, """            determinants1.append(det)
+            determinants2.remove(det)""", """            determinants1.append(det)""")]},
     {'name': 'transfer-label-mixup', 'rule': 'C15.R1',
      'edits': [(CG, """        for det in from1to2:
             det.label = label1""", """        for det in from1to2:
@@ -67,4 +63,10 @@ VARIANTS = [
         group2.calculate_total_pka()
         group1.calculate_total_pka()
         # store swapped energy and pka's""")]},
+    {'name': 'revert-fix-F23-order-not-restored', 'rule': 'C15.R1',
+     'edits': [(CG, "        for determinant_list, original in saved_lists:\n            determinant_list[:] = original\n", "")]},
+    {'name': 'revert-fix-F24-group-not-updated', 'rule': 'C15.R1',
+     'edits': [(CG, "            if group1 is not None:\n                # keep the group reference in step with the label\n                det.group = group1\n", "")]},
+    {'name': 'revert-fix-F25-marks-not-rebuilt', 'rule': 'C15.R4',
+     'edits': [(M, "            avr_group.non_covalently_coupled_groups = partners\n", "            pass\n")]},
 ]
